@@ -156,6 +156,10 @@ def run_unpack_case(case):
         eq('unpack(field index)', [tuple(r) for r in etl.unpack(t, 1, ['p', 'q'])], want2)
         io = [tuple(r) for r in etl.unpack(t, 'v', ['p', 'q'], include_original=True)]
         eq('unpack(include_original)', io, [('id', 'v', 'z', 'p', 'q')] + [tuple(t[i + 1]) + tuple(want2[i + 1][2:]) for i in range(len(vals))])
+        # an EARLIER field holds a cell equal to the unpacked one (another field in between): the cell is dropped by position
+        tw = [['w', 'id', 'v', 'z']] + [[tuple(list(v)), i + 1, tuple(v), 51 + i] for i, v in enumerate(vals)]
+        eq('unpack(an earlier field holds an equal cell)', [tuple(r) for r in etl.unpack(tw, 'v', ['p', 'q'])],
+           [('w', 'id', 'z', 'p', 'q')] + [(tuple(v),) + want2[i + 1] for i, v in enumerate(vals)])
         # unpackdict: the same values keyed p, q, r
         td = [['id', 'v', 'z']] + [[i + 1, dict(zip('pqr', v)), 51 + i] for i, v in enumerate(vals)]
         eq('unpackdict(keys=[p,q])', [tuple(r) for r in etl.unpackdict(td, 'v', keys=['p', 'q'])], want2)
